@@ -14,6 +14,7 @@ CONSTANTS
   Tag = "C13-r2"
   SoftTargets <- NoSoft
   HardTargets <- AllPaths
+  LinkCounts = {}
   SureCases = FALSE
   OnlyLastMayFail = FALSE
 SPECIFICATION LSpec
